@@ -130,7 +130,7 @@ def payload_value(kind, rng):
     if kind == "text":
         return rng.choice(["hello", "", "a\nb", "é𝔘", "x" * 300, " "]) + str(rng.randrange(100))
     if kind == "date":
-        v = datetime(2001, 1, 1) + timedelta(seconds=rng.randrange(-3 * 10 ** 9, 3 * 10 ** 9))
+        v = datetime(2001, 1, 1) + timedelta(seconds=rng.randrange(-3 * 10 ** 9, 3 * 10 ** 9), microseconds=rng.choice([0, 0, 1, 500, 999000, 999999, rng.randrange(10 ** 6)]))
         if rng.random() < .15:
             # a time-zone-aware value names an instant; the record holds that instant (seconds from the epoch, UTC; TZ is pinned to UTC)
             from datetime import timezone
@@ -300,6 +300,10 @@ def dec_case(kind, flags_np, extra_payload_bits, salt, rec, stub, rng):
                 rec.count("dec_cases_with_long_coefficient")
         elif name in ("double", "seconds"):
             fields[name] = float(rng.randrange(0, 10 ** 8))
+            if rng.random() < .5:
+                # a record may hold any double: fractions of a second down to the microsecond a datetime / timedelta can name
+                fields[name] += rng.choice([rng.randrange(10 ** 6), rng.randrange(1000) * 1000, 999999, 1, 500]) / 1e6
+                rec.count("dec_cases_with_fractional_seconds")
         else:
             fields[name] = 0 if rng.random() < .1 else 0x1000 * (i + 1) + salt
             want[name] = fields[name]
@@ -369,7 +373,7 @@ def run_documents(spec, rec):
     of the reference ids, the document is saved and reopened, and every id must be on the cell it was put on - the path
     from a cell to its record and back includes the row encoder, which decides what gets a record at all."""
     from numbers_parser import Document
-    from vf.gen import docs
+    from vf.gen import docs, values as V
     rng = random.Random(f"C04-docs-{spec['seed']}-{spec['stream']}")
     ids_of = [a for a in OPT if a != "_rich_id"]
     vals = [1.5, "txt", datetime(2020, 1, 2, 3, 4, 5), True, timedelta(seconds=90), None, 0.0, ""]
@@ -382,10 +386,22 @@ def run_documents(spec, rec):
                 doc = Document(num_rows=R, num_cols=C, num_header_rows=0, num_header_cols=0)
                 t = doc.sheets[0].tables[0]
                 want = {}
+                payload = {}
                 for r in range(R):
                     for c in range(C):
-                        if vals[c] is not None:
-                            t.write(r, c, vals[c])
+                        v = vals[c]
+                        if isinstance(v, str) and v and rng.random() < .7:
+                            # the text payload is an id into the table's string list: equivalent-looking strings must keep distinct ids
+                            v = rng.choice(V.EQUIVALENT) if rng.random() < .7 else rng.choice(["txt", "txt ", " txt", "TXT", "t\u0078t"])
+                        elif isinstance(v, datetime) and rng.random() < .5:
+                            v = v + timedelta(days=rng.randrange(-40000, 9000), microseconds=rng.choice([0, 1, 625, 999999, rng.randrange(10 ** 6)]))
+                        elif isinstance(v, timedelta) and rng.random() < .5:
+                            v = timedelta(seconds=rng.randrange(-10 ** 7, 10 ** 7), microseconds=rng.choice([0, 4000, 1, 999999]))
+                        elif isinstance(v, float) and v and rng.random() < .5:
+                            v = payload_value("number", rng)
+                        if v is not None:
+                            t.write(r, c, v)
+                            payload[(r, c)] = v
                         cell = t.cell(r, c)
                         ids = {}
                         k = rng.random()
@@ -409,6 +425,12 @@ def run_documents(spec, rec):
                     os.remove(path)
             for (r, c), (kind, ids) in want.items():
                 cell = t2.cell(r, c)
+                if (r, c) in payload:
+                    rec.count("doc_payloads_compared")
+                    if not V.same_value(payload[(r, c)], cell.value):
+                        rec.violation("doc_roundtrip_payload", {"kind": kind, "got_kind": type(cell).__name__},
+                                      {"pos": [r, c], "want": repr(payload[(r, c)])[:80], "got": repr(cell.value)[:80]}, case=case)
+                        continue
                 rec.count("doc_cells_with_ids" if ids else "doc_cells_without_ids")
                 if kind == "EmptyCell" and ids:
                     rec.count("doc_empty_cells_with_ids")
